@@ -65,7 +65,7 @@ ZDayWhy(r) ==
       eodc == <<c[1], 86399, 999999999>>
       eod == IF Settled(z, eodc) THEN EndOfDayC(z, eodc) ELSE <<>>
       oneDay == [SpanZero EXCEPT !.d = 1]
-  IN First(<<ResWhy(z, r.sod, sod, "Zoned::start_of_day is not the first instant of the civil day"),
+  IN First(<<IF StartSettled(z, c[1]) THEN ResWhy(z, r.sod, sod, "Zoned::start_of_day is not the first instant of the civil day") ELSE "",
              IF Settled(z, eodc) THEN ResWhy(z, r.eod, eod, "Zoned::end_of_day") ELSE "",
              IF ZAddSettled(z, t, oneDay) THEN ResWhy(z, r.tom, ZAdd(z, t, oneDay), "Zoned::tomorrow") ELSE "",
              IF ZAddSettled(z, t, SpanNeg(oneDay)) THEN ResWhy(z, r.yes, ZAdd(z, t, SpanNeg(oneDay)), "Zoned::yesterday") ELSE "">>)
@@ -130,7 +130,7 @@ ZRoundWhy(r) ==
        LET c == CivilAt(z, t)
            s0 == StartOfDayC(z, c[1])
            s1 == StartOfDayC(z, c[1] + 1)
-       IN IF s0 = <<>> \/ s1 = <<>> \/ ~InTsRange(s0) THEN ""
+       IN IF s0 = <<>> \/ s1 = <<>> \/ ~InTsRange(s0) \/ ~StartSettled(z, c[1]) \/ ~StartSettled(z, c[1] + 1) THEN ""
           ELSE IF ~InTsRange(s1) /\ r.res.st = "err" THEN ""    \* last day of the range: the day length is not computable
           \* a civil day interrupted by a fold across midnight (St. John's 1987-10-24: 00:01 -> 23:01): the
           \* instant lies outside [start of its day, start of the next): the wording does not settle this
